@@ -123,7 +123,8 @@ def write_replay(pid, rep):
 def confirm_replay(path):
     """Replay the file in a *fresh interpreter*; True iff it reports the violation again."""
     env = dict(os.environ, PYTHONHASHSEED="0")
-    p = subprocess.run([sys.executable, "-m", "pbsim.main", "--replay", path], cwd=VERIF, env=env,
+    flags = ["-O"] if sys.flags.optimize else []
+    p = subprocess.run([sys.executable] + flags + ["-m", "pbsim.main", "--replay", path], cwd=VERIF, env=env,
                        capture_output=True, text=True, timeout=900)
     return p.returncode == 1 and "VIOLATION" in p.stdout, p.stdout[-2000:] + p.stderr[-2000:]
 
@@ -132,6 +133,9 @@ def do_replay(path):
     with open(path) as f:
         rep = json.load(f)
     pid = rep["property"]
+    if rep.get("python_optimize") and not sys.flags.optimize:
+        # recorded in the pass that runs the interpreter with -O (asserts and `if __debug__:` blocks compiled out)
+        os.execv(sys.executable, [sys.executable, "-O", "-m", "pbsim.main", "--replay", path])
     mod = load_prop(pid)
     lib.load()
     lib.warmup()
@@ -165,6 +169,7 @@ def main(argv=None):
     ap.add_argument("--workers", type=int, default=int(os.environ.get("PBSIM_WORKERS", "16")))
     ap.add_argument("--no-evidence", action="store_true")
     ap.add_argument("--no-minimise", action="store_true")
+    ap.add_argument("--opt-pass-runs", type=int, help="runs of the additional pass under `python -O` (default: from the plan; 0 = none)")
     ap.add_argument("--evidence-dir", default=os.path.join(VERIF, "evidence"))
     a = ap.parse_args(argv)
     if a.replay:
@@ -287,7 +292,7 @@ def main(argv=None):
             continue
         rep = dict(rep)
         rep.update({"format": 1, "engine": "pbsim", "engine_version": ENGINE_VERSION, "zygote_warmup": ZYGOTE_WARMUP,
-                    "property": pid, "seed": rec["seed"], "tier": a.tier,
+                    "property": pid, "seed": rec["seed"], "tier": a.tier, "python_optimize": bool(sys.flags.optimize),
                     "violation": {"sig": v["sig"], "detail": v.get("detail", "")[:2000]}})
         rep_orig = dict(rep)
         if not a.no_minimise and hasattr(mod, "minimise") and len(seen_sigs) <= 2:
@@ -350,11 +355,47 @@ def main(argv=None):
             break
 
     phases["minimise_and_confirm"] = round(time.monotonic() - t_start - sum(phases.values()), 1)
+
+    # ---- the same check again, smaller, in an interpreter started with -O: interpreter flags are part of the environment
+    # a user may run the library in (asserts and `if __debug__:` blocks are compiled out); simulated run and solo
+    # oracle both run under the flag, so what shows is a dependence of the PROPERTY on it, not a difference in numbers
+    opt_pass = {"runs": 0}
+    n_opt = a.opt_pass_runs if a.opt_pass_runs is not None else (0 if sys.flags.optimize else max(8, len(records) // 8))
+    if n_opt > 0 and not sys.flags.optimize:
+        cmd = [sys.executable, "-O", "-m", "pbsim.main", pid, "--tier", a.tier, "--runs", str(n_opt), "--no-evidence",
+               "--opt-pass-runs", "0", "--workers", str(a.workers)]
+        if budget:
+            cmd += ["--budget", str(max(30.0, budget / 8.0))]
+        try:
+            cp = subprocess.run(cmd, cwd=VERIF, capture_output=True, text=True, timeout=3000)
+            out_lines = cp.stdout.splitlines()
+            keep = False
+            for ln in out_lines:
+                if ln.startswith("VIOLATION "):
+                    keep = True
+                    print(ln + "   (pass under python -O)")
+                    reported.append(ln.split("replay=", 1)[-1].strip())
+                elif keep and ln.startswith("  "):
+                    print(ln)
+                else:
+                    keep = False
+                    if ln.startswith("HARNESS-ERROR"):
+                        print(ln[:600])
+            tail = next((ln for ln in reversed(out_lines) if ln.startswith("runs=")), "")
+            opt_pass = {"runs": n_opt, "exit": cp.returncode, "summary": tail}
+            if cp.returncode == 1:
+                exit_code = 1
+            elif cp.returncode != 0:
+                harness_errors.append({"seed": None, "harness_error": f"python -O pass exited {cp.returncode}: "
+                                       + (cp.stdout[-1500:] + cp.stderr[-1500:])})
+        except subprocess.TimeoutExpired:
+            harness_errors.append({"seed": None, "harness_error": "python -O pass timed out"})
+    phases["python_O_pass"] = round(time.monotonic() - t_start - sum(phases.values()), 1)
     wall = time.monotonic() - t_start
     print("phases:", phases, flush=True)
     if not a.no_evidence:
         ev = build_evidence(mod, pid, a.tier, base, records, wall, det, known_hit, reported, harness_errors,
-                            regression=regression)
+                            regression=regression, opt_pass=opt_pass)
         os.makedirs(a.evidence_dir, exist_ok=True)
         with open(os.path.join(a.evidence_dir, f"{pid}.json"), "w") as f:
             json.dump(ev, f, indent=1, sort_keys=True)
@@ -385,7 +426,7 @@ def _minimise_in_child(pid, rep):
     return load_prop(pid).minimise(rep)
 
 
-def build_evidence(mod, pid, tier, base, records, wall, det, known_hit, reported, harness_errors, regression=None):
+def build_evidence(mod, pid, tier, base, records, wall, det, known_hit, reported, harness_errors, regression=None, opt_pass=None):
     good = [r for r in records if "harness_error" not in r]
     cov = mod.summarise(good)
     nontrivial = {r["digest"] for r in good if r.get("nontrivial") and r.get("digest")}
@@ -401,6 +442,7 @@ def build_evidence(mod, pid, tier, base, records, wall, det, known_hit, reported
     cov["known_findings_reproduced"] = sorted(known_hit)
     cov["violation_replays"] = reported
     cov["repaired_defect_witnesses"] = regression or {"replayed": 0, "failing": 0}
+    cov["pass_under_python_O"] = opt_pass or {"runs": 0}
     cov["harness_errors"] = len(harness_errors)
     cov["runs_retried_without_opcode_after_interpreter_crash"] = sum(1 for r in good if r.get("retried_after_interpreter_crash"))
     cov["components"] = {
